@@ -43,9 +43,21 @@ TYPES = {
     'boolean': (['true', 'false', '1'], ['true', '1', 'false', '0', ' true ', ' 0'], lambda s: s.strip() in ('true', '1')),
     'string': (['a', 'b', 'c'], ['a', 'b', 'c', 'A', ' a'], lambda s: s),
     'date': (['2020-01-01', '2020-01-02', '2021-01-01'], ['2020-01-01', '2020-01-02', '2021-01-01', ' 2020-01-01 '], lambda s: s.strip()),
+    'double': (['1.0', '2.5', '3'], ['1', '1.0', '1e0', '10E-1', '2.5', '25e-1', '3', ' 3 ', '0.3E1', 'INF'], lambda s: float(s.strip())),
     'QName': (['p1:x', 'p1:y', 'p3:x'], ['p1:x', 'p2:x', 'p1:y', 'p3:x', 'p2:y', ' p1:x ', 'p2:y  ', '  p3:x'], None),
 }
 QNS = {'p1': 'urn:q:1', 'p2': 'urn:q:1', 'p3': 'urn:q:3'}
+FIELD_DEFAULT = '2'
+
+
+def effective(fields, row):
+    """The row as the assessed infoset has it: defaults filled in for absent attributes / empty elements."""
+    out = []
+    for (where, typ), v in zip(fields, row):
+        if where == 'attrdef' and v is None or where == 'elemdef' and v == '':
+            v = FIELD_DEFAULT
+        out.append(v)
+    return tuple(out)
 
 
 def value_of(typ, lexical):
@@ -64,6 +76,9 @@ def templates():
         out.append((f'{kind}-1elem-integer', kind, [('elem', 'integer')], False))
         out.append((f'{kind}-2mixed-int-str', kind, [('attr', 'integer'), ('elem', 'string')], False))
         out.append((f'{kind}-2attr-dec-bool', kind, [('attr', 'decimal'), ('attr', 'boolean')], False))
+        # fields with a default value: an absent attribute / an empty element carries the default in the assessed infoset
+        out.append((f'{kind}-1attrdef-integer', kind, [('attrdef', 'integer')], False))
+        out.append((f'{kind}-1elemdef-integer', kind, [('elemdef', 'integer')], False))
         out.append((f'{kind}-nested-1attr-integer', kind, [('attr', 'integer')], True))
         out.append((f'{kind}-nested-2mixed-int-str', kind, [('attr', 'integer'), ('elem', 'string')], True))
     return out
@@ -76,12 +91,14 @@ def schema_text(tpl):
     fpaths_row = []
     fpaths_ref = []
     for i, (where, typ) in enumerate(fields):
-        if where == 'attr':
-            attrs_row += f'<xs:attribute name="f{i}" type="xs:{typ}"/>'
+        if where in ('attr', 'attrdef'):
+            dflt = f' default="{FIELD_DEFAULT}"' if where == 'attrdef' else ''
+            attrs_row += f'<xs:attribute name="f{i}" type="xs:{typ}"{dflt}/>'
             fpaths_row.append(f'@f{i}')
             fpaths_ref.append(f'@f{i}')
         else:
-            elems_row += f'<xs:element name="f{i}" type="xs:{typ}" minOccurs="0"/>'
+            dflt = f' default="{FIELD_DEFAULT}"' if where == 'elemdef' else ''
+            elems_row += f'<xs:element name="f{i}" type="xs:{typ}"{dflt} minOccurs="0"/>'
             fpaths_row.append(f't:f{i}')
             fpaths_ref.append(f't:f{i}')
     rowtype = f'<xs:complexType name="Row"><xs:sequence>{elems_row}</xs:sequence>{attrs_row}</xs:complexType>'
@@ -106,7 +123,7 @@ def render_rows(tag, rows, fields):
         for i, ((where, typ), v) in enumerate(zip(fields, row)):
             if v is None:
                 continue
-            if where == 'attr':
+            if where in ('attr', 'attrdef'):
                 attrs += f' f{i}="{v}"'
             else:
                 kids += f'<t:f{i}>{v}</t:f{i}>'
@@ -132,6 +149,8 @@ def reference(tpl, scopes):
     errors = set()
     for rows, refs in scopes:
         seen = set()
+        rows = [effective(fields, r) for r in rows]
+        refs = [effective(fields, r) for r in refs]
         for row in rows:
             if any(v is None for v in row):
                 if kind == 'key':
@@ -234,7 +253,7 @@ def run_tables(spec, res):
     rng = env.rng_for(PROPERTY, spec['tier'], spec['seed'], name)
     for version, cls in (('1.0', xmlschema.XMLSchema10), ('1.1', xmlschema.XMLSchema11)):
         schema = cls(text)
-        pools = [TYPES[typ][0] for _, typ in fields]
+        pools = [TYPES[typ][0] + ([''] if where == 'elemdef' else []) for where, typ in fields]
         cells = [list(itertools.product(*[[None] + p for p in pools]))][0]
         # exhaustive small tables
         for nrows in range(0, spec['exhaustive_rows'] + 1):
@@ -248,7 +267,7 @@ def run_tables(spec, res):
                             continue   # 2-field templates: thin the 1.1 repetition
                         judge(res, xmlschema, schema, arb if version == '1.0' else None, tpl, scopes, 'exhaustive')
         # seeded larger tables with lexical variants
-        vpools = [TYPES[typ][1] for _, typ in fields]
+        vpools = [TYPES[typ][1] + (['', ''] if where == 'elemdef' else []) for where, typ in fields]
         for n in range(spec['random']):
             def cell():
                 return tuple(None if rng.random() < 0.12 else rng.choice(p) for p in vpools)
